@@ -430,8 +430,9 @@ def translate_inst(line, cx, out, phis_of, cur):
             return '{%s goto L_%s; }' % (s, tgt)
         if opc == 'switch':
             m2 = re.match(r'(.*?),\s*label\s+(%[\w."$-]+)\s*\[(.*)\]\s*$', body)
-            vt, ve = typed_operand(m2.group(1), cx); dflt = m2.group(2)
-            out.append('  CT_BR(%d, %s);' % (site(), ve))
+            vt, ve0 = typed_operand(m2.group(1), cx); dflt = m2.group(2)
+            sv = cx.fresh(); cx.decl[sv] = ctype(vt)
+            out.append('  %s = (%s)CT_SWV(%d, %s);' % (sv, ctype(vt), site(), ve0)); ve = sv
             for cm in re.finditer(r'(i\d+\s+-?\d+),\s*label\s+(%[\w."$-]+)', m2.group(3)):
                 ct2, ce2 = typed_operand(cm.group(1), cx)
                 out.append('  if (%s == %s) %s' % (ve, ce2, jump(cm.group(2))))
@@ -439,8 +440,9 @@ def translate_inst(line, cx, out, phis_of, cur):
         parts = split_top(body)
         if len(parts) == 1: out.append('  ' + jump(parts[0].split()[-1])); return
         ct_, ce = typed_operand(parts[0], cx)
-        out.append('  CT_BR(%d, %s);' % (site(), ce))
-        out.append('  if (%s) %s else %s' % (ce, jump(parts[1].split()[-1]), jump(parts[2].split()[-1]))); return
+        bt = cx.fresh(); cx.decl[bt] = 'uint8_t'
+        out.append('  %s = CT_BRV(%d, %s);' % (bt, site(), ce))       # in CT mode: checked against, and then forced to, the reference run's direction
+        out.append('  if (%s) %s else %s' % (bt, jump(parts[1].split()[-1]), jump(parts[2].split()[-1]))); return
     if opc == 'ret':
         if body.startswith('void'): out.append('  return;'); return
         t, e = typed_operand(body, cx); out.append('  return %s;' % e); return
@@ -672,7 +674,7 @@ def translate(text, tag='mod'):
     hdr = ['/* generated by ll2c from clang-14 IR - do not edit */',
            '#include <stdint.h>', '#include <stddef.h>', '#include <string.h>', '#include <stdlib.h>',
            '#ifdef CT_MODE', '#include "ct.h"', '#else',
-           '#define CT_ADDR(id,p) ((void)0)', '#define CT_BR(id,c) ((void)0)', '#define CT_LEN(id,n) ((void)0)', '#define CT_STORE(id,p) ((void)0)', '#endif',
+           '#define CT_ADDR(id,p) ((void)0)', '#define CT_BR(id,c) ((void)0)', '#define CT_BRV(id,c) (c)', '#define CT_SWV(id,v) (v)', '#define CT_LEN(id,n) ((void)0)', '#define CT_STORE(id,p) ((void)0)', '#endif',
            'uint8_t nondet_u8(void); uint16_t nondet_u16(void); uint32_t nondet_u32(void); uint64_t nondet_u64(void);',
            'void verif_cpuid(unsigned leaf, unsigned sub, unsigned *a, unsigned *b, unsigned *c, unsigned *d);',
            'unsigned verif_garbage_ecx(void); void verif_xgetbv(unsigned idx, unsigned *lo, unsigned *hi);']
